@@ -9,21 +9,24 @@ RULE = ('exhaustive: every polynomial of degree 1..3 with coefficients in {-2..2
         'Non-trivial = degree >= 2. The last tag gives the count of model runs whose exactness flag was true/false.')
 PROVED = ['[P] sign_rule: m mod 4 in {2,3} <-> m(m-1)/2 odd',
           '[P] discriminant_zero: the zero polynomial fails the assert (Panic PAssert) in either mode',
-          '[P] discriminant_const: a non-zero constant gives 0',
+          '[P] discriminant_const: a non-zero constant gives 0 (as coded; outside the property)',
           '[P] discriminant_linear: degree 1 gives 1, flag true, no panic, either mode',
           '[P] discriminant_no_outoffuel: supplied fuel suffices for all inputs',
-          '[C] discriminant_flag_no_panic_partial: flag true => the run did not panic (for non-zero f)',
-          '[C] discriminant_partial: if the run returns (d, true) then d * lc f = (+-) resultant f f\' with the sign of sign_rule, for the value the model of resultant returned']
-NOT_PROVED = ['resultant f f\' = det Sylvester(f, f\') (C04, not proved) hence discriminant f = (-1)^(n(n-1)/2) Res(f,f\')/lc f as a determinant: checked by the Bareiss oracle on every case',
-              'lc f | Res(f, f\') (exactness of the last division) and the exactness flag in general: observed on every explored input',
-              'vanishing iff repeated factor, invariance under x -> x + c and x -> -x, disc(fg) = disc f disc g Res(f,g)^2: metamorphic oracles only']
+          '[C] discriminant_flag_no_panic_partial: canonical non-zero f, flag true => a value is returned',
+          '[C] discriminant_partial: value d with flag true => d * lc f = (-1)^(n(n-1)/2) * r, r the value of resultant f f\' (flag true)',
+          '[C] discriminant_det_partial: deg f >= 1, flag true => d * lc f = (-1)^(n(n-1)/2) * det Sylvester(f, f\') (MathComp), i.e. d is the discriminant of the property text',
+          '[C] discriminant_eq0_partial: under the flag, d = 0 iff f and f\' have a common factor of positive degree (repeated factor), via MathComp resultant_eq0']
+NOT_PROVED = ['exactness flag always true (C04: sub-resultant structure theorem; and lc f | Res(f, f\')): observed on every explored input; the formula is re-checked by the Bareiss oracle on every case',
+              'invariance under x -> x + c and x -> -x, disc(fg) = disc f disc g Res(f,g)^2: metamorphic oracles only']
 PROFILES = ('debug', 'release')
 
+TIMEOUT = 3600          # per service process; the extracted model computes with Coq's binary integers (slow on 64-bit coefficients)
+
 CLAIM = dict(
-    technique='Coq proofs about the Gallina model of discriminant (sign rule, degree 0/1 cases, termination, flag => no panic) + extracted-model-vs-implementation correspondence + Sylvester/Bareiss oracle and metamorphic relations on every case',
-    text='For all inputs: the sign rule, the zero/constant/linear cases, fuel sufficiency, no panic and d * lc f = +-resultant whenever the exactness flag is true. '
+    technique='Coq proofs about the Gallina model of discriminant (sign rule, degree 0/1 cases, termination; under the exactness flag: no panic and d * lc f = (-1)^(n(n-1)/2) det Sylvester(f,f\')) + extracted-model-vs-implementation correspondence + Sylvester/Bareiss oracle and metamorphic relations on every case',
+    text='For all inputs: the sign rule, the zero/constant/linear cases, fuel sufficiency, no panic and d * lc f = (-1)^(n(n-1)/2) det Sylvester(f, f\') whenever the exactness flag is true ([C]). '
          'The equality with the determinant formula and the invariance/multiplicativity identities are checked by independent oracles on every generated case, not proved.',
-    note='Depends on C04 (resultant = Sylvester determinant not proved); exactness flag observed true on every explored input.',
+    note='Conditional on the exactness flag (C04: structure theorem not proved); flag observed true on every explored input.',
     ref='DESIGN.md section 4, C05')
 
 def o_disc(f):
@@ -97,7 +100,8 @@ def cases(rng, tier):
     # disc(fg) = disc f disc g Res(f,g)^2
     for k in range(80 if not th else 800):
         f = R.rpoly(rng, rng.randrange(1, 6), rng.choice([2, 8, 24])); g = R.rpoly(rng, rng.randrange(1, 6), rng.choice([2, 8, 24]))
-        if rng.random() < 0.15: g = R.pmul(g, R.rpoly(rng, 1, 4)); f = R.pmul(f, g[:2] if len(g) > 1 else [1])
+        if rng.random() < 0.15:          # common factor: Res(f,g) = 0 and disc(fg) = 0
+            h = R.rpoly(rng, 1, 4); f = R.pmul(f, h); g = R.pmul(g, h)
         fg = R.pmul(f, g)
         prof = 'release' if rng.random() < 0.25 else 'debug'
         out.append(Case('disc_prod', line('disc_prod', f, g, fg), model=line('disc_prod', f, g, fg, R.MODE[prof]), compare=cmpl,
